@@ -87,6 +87,7 @@ func verifFullScenarioX(nExt int, subs []string, behaviours []int, raceTimers bo
 	plan = append(plan, cur)
 	f := newVerifFull(nExt, subs, plan, 3000)
 	w := f.w
+	w.SetRuntimeIgnoresTerm(verifRuntimeIgnoresTerm)
 	execsBefore := 0
 	if !raceTimers {
 		w.SetSlowInit(true)
@@ -241,6 +242,14 @@ func VerifFullRespExitThenStall() {
 
 // C05 "response versus expiry": the timeout timer may fire at any point of a healthy invocation.
 var verifRaceFromStart bool
+var verifRuntimeIgnoresTerm bool
+
+// a stalled runtime that also ignores SIGTERM, with an extension: it is killed (not merely
+// asked to terminate) before the timeout answer is given
+func VerifFullTimeoutExtIgnoreTerm() {
+	verifRuntimeIgnoresTerm = true
+	verifFullScenario(1, []string{"IS"}, []int{rapid.VbStall, rapid.VbRespond})
+}
 
 // expiry at any point including the initialisation phase (the timed-out invocation must not be
 // dispatched behind the reset)
